@@ -745,6 +745,8 @@ class Env:
         if owner != Opaque('unlocked'): return s.ret(st, err(mk_enum('TryLockError', 'WouldBlock')))
         return s.p_Mutex__lock(M, st, th, ci, a)
 
+    def p_Mutex__clear_poison(s, M, st, th, ci, a):
+        m = s.tgt(M, st, a[0]); M.write(st, a[0], m.with_field(2, False)); return s.ret(st, UNIT)
     def p_Mutex__is_poisoned(s, M, st, th, ci, a): return s.ret(st, s.tgt(M, st, a[0]).f[2])
     def p_Mutex__into_inner(s, M, st, th, ci, a):
         m = a[0]
